@@ -35,7 +35,7 @@ var verifRefQueries = []string{
 	`rate(foo[2m])`,
 	`delta(foo[2m])`,
 	`irate(foo[2m])`,
-	`sum_over_time(foo[2m] offset 10s)`,
+	`present_over_time(foo[2m] offset 10s)`,
 	`foo + on(a) bar`,
 	`foo * on(a) group_left bar`,
 	`foo > on(a) bar`,
